@@ -80,6 +80,8 @@ pub struct FnSig {
     pub ext_ty: Option<String>,
     /// the external parameters this translated function takes in front of its own (name, Lean type)
     pub externs: Vec<(String, String)>,
+    /// takes the user's merge function `merge` as an argument
+    pub uses_merge: bool,
 }
 
 /// the type a target line instantiates a type parameter with: `B=Block`, or `W=@extw` for an abstract writer
@@ -489,6 +491,8 @@ pub struct Ctx<'w> {
     pub used_xdecompress: bool,
     /// external functions called: (parameter name, Lean type), in first-use order
     pub used_externs: Vec<(String, String)>,
+    /// the function takes its loop bound as an explicit argument (`fuel=@param`)
+    pub fuel_param: bool,
     /// wrappers still alive at the end of the function: (place text, Lean callee, place) dropped before the final return
     pub pending_drops: Vec<(String, String)>,
     /// rust variables standing for one element of a list place (`if let Some(x) = v.last_mut()`, `split_last_mut`)
